@@ -160,7 +160,8 @@ def _probe(model):
     model.eval()
     with torch.enable_grad():
         y = model(Xp)
-        grads = torch.autograd.grad((y * torch.tensor([1.0, -2.0, 3.0], dtype=torch.float64)).sum(), [Xp] + list(model.parameters()), allow_unused=True)
+        grads = torch.autograd.grad((y * torch.tensor([1.0, -2.0, 3.0], dtype=torch.float64)).sum(),
+                                    [Xp] + [p for p in model.parameters() if p.requires_grad], allow_unused=True)
     model.train(was)
     return y.detach(), [None if g is None else g.detach() for g in grads]
 
@@ -297,9 +298,23 @@ def fresh(seed, name):
     return _fresh_cache[key]
 
 
+def apply_variant(model, variant):
+    """Initial states a user's model can legitimately be in when it is handed over."""
+    if variant == "frozen_param":
+        model.conv1.bias.requires_grad_(False)       # e.g. a partly frozen backbone: the flags must survive every call
+        model.lin.weight.requires_grad_(False)
+    elif variant == "bn_train_root_eval":
+        model.eval()
+        model.bn.train()                             # e.g. a layer swapped in after model.eval(): functions that evaluate the model must not update its buffers
+        model.drop.train()
+
+
 def run_history(case, ctx):
     seed = case["seed"]
     model, ctl = make_model(seed)
+    apply_variant(model, case.get("variant"))
+    if case.get("variant"):
+        ctx.label("variant_" + case["variant"])
     snap = snapshot(model)
     ctl.fcount = ctl.bcount = ctl.rcount = 0
     failed_before = False
@@ -362,6 +377,11 @@ def dls_enum(tier):
             cases.append({"seed": seed, "history": [[name, None if fault is None else list(fault)]]})
         for name in INVALID:
             cases.append({"seed": seed, "history": [[name, None]]})
+        for variant in ("frozen_param", "bn_train_root_eval"):
+            for name in ALLOPS:
+                cases.append({"seed": seed, "variant": variant, "history": [[name, None]]})
+            for name, fault in _crash_points(seed, ["dls"]):
+                cases.append({"seed": seed, "variant": variant, "history": [[name, None if fault is None else list(fault)]]})
     return cases
 
 
@@ -421,13 +441,15 @@ def history_strategy(draw):
     for _ in range(n):
         name, fault = draw(st.sampled_from(steps))
         hist.append([name, None if fault is None else list(fault)])
-    return {"seed": seed, "history": hist}
+    return {"seed": seed, "history": hist, "variant": draw(st.sampled_from([None, None, "frozen_param", "bn_train_root_eval"]))}
 
 
 def subchecks(tier):
     return [
         Sub("dls_crash_points", run_history, enum=dls_enum, exhaustive=True, shards_quick=2, shards_thorough=8,
-            desc="every k-th forward / reference-generator / backward crash point of three deep_lift_shap configurations plus 11 input-validation failures"),
+            desc="every k-th forward / reference-generator / backward crash point of three deep_lift_shap configurations plus 11 input-validation "
+                 "failures; every call and every deep_lift_shap crash point again on a model with frozen parameters and on a model whose root "
+                 "is in eval mode while BatchNorm/Dropout are in training mode"),
         Sub("api_crash_points", run_history, enum=api_enum, exhaustive=True, shards_quick=4, shards_thorough=8,
             desc="every k-th forward / reference / backward crash point of the 17 other model-taking API calls (func = predict and deep_lift_shap)"),
         Sub("history_pairs", run_history, enum=pair_enum, exhaustive=True, shards_quick=4, shards_thorough=16, budget_quick=200.0,
